@@ -75,6 +75,8 @@ enum Unit {
     Outputs { len: usize },
     /// one node bound to the first and the last output with m others between
     FarRepeat { m: usize },
+    /// `half` simultaneously live values (spill slot numbers beyond 255 / 1024)
+    Huge { half: usize },
     TooSmall,
 }
 
@@ -132,6 +134,9 @@ fn units(tier: Tier) -> Vec<Unit> {
     }
     for m in 1..=16 {
         v.push(Unit::FarRepeat { m });
+    }
+    for half in [300usize, 1400] {
+        v.push(Unit::Huge { half });
     }
     v
 }
@@ -437,7 +442,7 @@ impl Check for C01 {
 
     fn meta(&self, tier: Tier) -> Meta {
         Meta {
-            rule: "case = (program, register budget N); programs: (a) every opcode x operand form {reg, reg/reg, same-reg, reg/imm, imm/reg, imm/imm} x value alphabet V (+op-specific boundary values) squared; (b) every DAG with 1..=n operation nodes over leaves {X,Y,2.5} and ops {neg,sub,min,add} (commutative operands ordered, identical nodes merged, every node used), root variants {last; last+first; leaf+last; const+last; orphan+last}; (c) families fan/tree/stress for every width w; (d) output lists: every list of up to 5 (thorough 6) output bindings over 5 nodes {x*2, y+1, x-y, 3, x} (repeated nodes, constants and bare variables as outputs) and one node bound to the first and last of m+2 outputs for m = 1..16; each at every budget N in {3..12,16,255} under the point evaluator (3 points) and the many-point evaluator (3 lanes and 1 lane); distinct = distinct (context graph hash, N); non-trivial = tape contains at least one arithmetic op".into(),
+            rule: "case = (program, register budget N); programs: (a) every opcode x operand form {reg, reg/reg, same-reg, reg/imm, imm/reg, imm/imm} x value alphabet V (+op-specific boundary values) squared; (b) every DAG with 1..=n operation nodes over leaves {X,Y,2.5} and ops {neg,sub,min,add} (commutative operands ordered, identical nodes merged, every node used), root variants {last; last+first; leaf+last; const+last; orphan+last}; (c) families fan/tree/stress for every width w; (d) output lists: every list of up to 5 (thorough 6) output bindings over 5 nodes {x*2, y+1, x-y, 3, x} (repeated nodes, constants and bare variables as outputs) and one node bound to the first and last of m+2 outputs for m = 1..16; (e) two huge programs with 300 and 1400 simultaneously live values (spill slot numbers beyond 255 and 1024) at budgets 3, 12, 255; each at every budget N in {3..12,16,255} under the point evaluator (3 points) and the many-point evaluator (3 lanes and 1 lane); distinct = distinct (context graph hash, N); non-trivial = tape contains at least one arithmetic op".into(),
             bounds: match tier {
                 Tier::Quick => "DAG nodes <= 3 (root variants for all), family width <= 14 (+tree 30,40)".into(),
                 Tier::Thorough => "DAG nodes <= 5 (root variants for n <= 4), family width <= 24 (+tree 30,40)".into(),
@@ -662,6 +667,11 @@ impl Check for C01 {
                     q.roots = (0..len).map(|i| nodes[(code / nodes.len().pow(i as u32)) % nodes.len()]).collect();
                     check_program(cx, &mut sub, &q, &pts, &[3, 4, 5, 255]);
                 }
+            }
+            Unit::Huge { half } => {
+                let q = prog::huge_prog(half, false);
+                let pts = generic_points(1);
+                check_program(cx, &mut sub, &q, &pts, &[3, 12, 255]);
             }
             Unit::FarRepeat { m } => {
                 // [h, a_1 .. a_m, h] and [a_1, h, a_2 .. a_m, h]: the repeated node
